@@ -350,6 +350,9 @@ func (c *Ctx) Ob(rule, construct, pos string, ok bool, detail string) *Obligatio
 		}
 	}
 	c.Obs = append(c.Obs, o)
+	if g := os.Getenv("VERIF_GREP"); g != "" && strings.Contains(construct+" "+detail, g) {
+		fmt.Fprintf(os.Stderr, "  [%s] %s %s: %s\n", o.Status, rule, construct, detail)
+	}
 	return o
 }
 
